@@ -23,6 +23,15 @@ CHECKS = {
  "C18": ("exploration", "reference-model monitors: linear scan vs Blocked() over PRNG rule lists and reloads; reference bounded priority set vs the candidate address queue",
          "Blocked() is compared with a linear scan at every range endpoint +-1, the extremes and PRNG points after each of 1-4 reloads of generated rule lists (overlapping, nested, adjacent, /0../32, duplicates, comments, malformed lines), also while reloading concurrently. Push/Pop/Reset histories on the address list are compared with a reference bounded priority set after every operation (filters, max-priority pop, bound, no resurrection, per-source counts).",
          "Session-level 'never dials/accepts/announces to a filtered address' (own address, duplicate IP, banned IP, blocked IP) is observed by the session scenarios of this check once built; until then only the component level is claimed. Eviction victim among equal time stamps is left free.", "4/C18"),
+ "C01": ("exploration", "offline trace checker over recorded storage writes, peer-observed have/bitfield frames, Stats() samples and resume data of real download sessions with hostile scripted peers and web seeds",
+         "Each scenario runs a real leeching session on recording storage against scripted honest/hostile peers and web seeds (child processes). An offline pass in global sequence order checks: every WriteAt payload equals the metainfo content at that position and targets a real file; every have / bitfield / have-all frame a peer received, every Stats() sample and the resume bitfield only claim pieces whose bytes had all been stored before; completion implies byte-identical files; in single-source probes the peer that delivered a corrupt piece is dropped and never reconnected although its address keeps being offered.",
+         "Sequence numbers are drawn at the recorder (storage wrapper entry/exit, frame receipt by the scripted peer), so 'claim observed after write returned' is causally sound. Ban behaviour is judged only in single-source probes (elsewhere a stale piece is indistinguishable from a failed one without a hook). SHA-1 collisions out of scope.", "4/C01"),
+ "C03": ("exploration", "online request/response matcher at scripted leecher sockets against ground truth over a read-cache configuration lattice; concurrent reference-model check of the cached piece reader",
+         "Scripted leechers (plain/RC4, fast/non-fast) send generated request streams to a partially complete seeding session for each drawn read-cache configuration; every piece frame must answer an outstanding request with exactly the requested length and the torrent's bytes, only for pieces the client advertised, never for out-of-range / zero-length / >16 KiB / wrapping requests, and never after a choke without an allowed-fast grant. cachedpiece.ReadAt is additionally driven by 8 concurrent readers over tiny caches with 1 ms expiry.",
+         "TCP order on one connection equals the client's write order. Rejects are not used to retire requests (the client answers every cancel with a reject).", "4/C03"),
+ "C10": ("exploration", "completion monitor with byte compare on recording storage; quiescence-based stuck detector with load canary, in child processes",
+         "PRNG product of layout x picker mode x encryption policy pair x source mix (scripted honest seeders incl. choke/unchoke cycles, web seeds, both) x .torrent/magnet x 0-3 hostile other peers; with one reachable honest full source every scenario must end with NotifyComplete and byte-identical files. A scenario that neither completes nor moves for 3 s (stats, socket byte counters, web-seed requests; canary on time) is a stuck violation; otherwise inconclusive.",
+         "End-game duplicate limit is left at its default (the statement does not quantify over it); a 'reject' from an unchoked source is not treated as honest behaviour. 'Always' = finite schedules explored.", "4/C10"),
 }
 PENDING = {}
 props = [json.loads(l) for l in open(os.path.join(V, 'properties.jsonl'))]
